@@ -90,3 +90,9 @@ func TestVerifC19_count_invalid(t *testing.T) {
 	}
 	c19Sys().UnitInvalid(r, t, plan)
 }
+
+func TestVerifC19_count_codec(t *testing.T) {
+	r := verifmc.Start(t, "C19", "count_codec")
+	defer r.Finish()
+	c19Sys().UnitCodec(r, t, []prio.Inst{c19Inst}, []int{2, 3})
+}
